@@ -7,7 +7,9 @@ binary `+ - * / % << >>` (and compound assignment), unary `-`, `as <integer type
 `.unwrap()` / `.expect(..)`, panicking std method, allocation sized by an argument and panicking macro, keyed by
 (file, function, kind, normalised expression, occurrence) — no line numbers.  `translator/arith_sites.json` gives each
 site a class: `model:<definition>@<theorem>` (an explicit panic / error site of the Lean model, unreachable by the
-named theorem), `range:<invariant>` (cannot overflow / be out of range), `test-only`, or `OPEN`.  The generator REFUSES
+named theorem; the reference itself is checked by `Props/C16Links.lean`), `guard:<shape> <comparison>` (behind a comparison of
+the same function that the generator finds again in the sources), `range:<invariant>` (cannot overflow / be out of range),
+`test-only`, or `OPEN`.  The generator REFUSES
 (./check C16: VIOLATION … no-failing-input-found, obligation `translator`) a source site without a class, a class
 without a site, a malformed class and a `model:` reference to a Lean name that does not exist; what it accepts is
 written to `Generated/ArithSites.lean`, and the theorems below are the remaining obligation: nothing is OPEN, and the
@@ -28,8 +30,13 @@ theorem gen_arith_sites : openSites.length = 0 ∧ (siteClasses.lookup "OPEN").g
 theorem gen_arith_sites_counted :
     (siteKinds.map (·.2)).sum = siteCount ∧ (siteClasses.map (·.2)).sum = siteCount := by decide
 
+/-- every recognised guard is counted once: the `guard` classes plus the rows of another class that carry a guard field -/
+theorem gen_arith_sites_guards_counted :
+    (guardKinds.map (·.2)).sum = (siteClasses.lookup "guard").getD 0 + guardAlso := by decide
+
 /-- the inventory is not empty, and some sites are covered by model theorems (non-vacuity) -/
-example : 300 < siteCount ∧ 100 < (siteClasses.lookup "model").getD 0 ∧ 20 ≤ modelRefs.length := by decide
+example : 300 < siteCount ∧ 100 < (siteClasses.lookup "model").getD 0 ∧ 20 ≤ modelRefs.length
+    ∧ 10 ≤ (siteClasses.lookup "guard").getD 0 ∧ 10 ≤ guardAlso := by decide
 
 /-- the union counter (the site the review found missing) is in the inventory, tied to the model definition that has the
 capacity check -/
